@@ -111,6 +111,8 @@ for U in ns us ms s:
   job entry=h_str2tp_{U} props=C15,C14 mode=direct backend=cvc5int qtimeout=300 tier=thorough
 for U in ns us ms s min h d:
   job entry=cal_{U} props=C14 mode=native bounded=every_day_of_years_-10400..+20000_(ns:_1680..2260),_2-3_times_of_day,_against_a_day-by-day_calendar desc=the_rendered_ISO-8601_text_is_the_correct_proleptic-Gregorian_UTC_date-time_and_parses_back_to_the_identical_time_point canary=off
+for U in ns us ms s min h d:
+  job entry=parse_far_{U} props=C15 mode=native bounded=2,000,000_pseudo-random_valid_date-times_with_years_of_every_magnitude_up_to_19_digits,_1/7_at_the_edge_of_the_target's_range_(thorough:_20,000,000) desc=a_valid_ISO-8601_date-time_parses_to_exactly_the_denoted_instant_when_the_target_can_represent_it_and_raises_out_of_range_otherwise_(never_a_wrapped_value) canary=off
 for U in s min h:
   job entry=far_kf_{U} props=C15,C14 mode=native kf=KF-C15-lowest-day-parse bounded=the_extreme_counts_INT64_MIN..INT64_MIN+31_(instants_in_the_lowest_representable_day) desc=an_instant_in_the_lowest_representable_day_renders_correctly_and_parses_back_to_the_identical_time_point canary=off
 @*/
